@@ -127,18 +127,19 @@ def kindName : SrcKind → String
   | .file => "file" | .inline => "inline" | .loader => "loader" | .remote => "remote" | .mdq => "mdq"
 
 def entLabel (chk : Bool) (now : Int) (p2 : String) (m : EntMap String) (e : Ent String) : String :=
-  let pol := Policy.code
   if chk && expired now e.validUntil then "ent/expired"
   else if has m e.id then "ent/duplicate-id"
-  else match prepEnt pol p2 e with
+  else match prepEnt p2 e with
     | none => "ent/no-saml2-role"
     | some d =>
-      if d.roles.length < e.roles.length then "ent/stored-some-roles-dropped"
-      else if !entClean p2 e then "ent/stored-with-non-saml2-sibling-role" else "ent/stored"
+      if d.roles.length < e.roles.length then
+        (if e.roles.any (fun r => !saml2 p2 r && d.roles.any (fun r' => decide (r'.kind = r.kind)))
+         then "ent/stored-non-saml2-sibling-role-dropped" else "ent/stored-some-roles-dropped")
+      else "ent/stored"
 
 def entLabels (chk : Bool) (now : Int) (p2 : String) : EntMap String → List (Ent String) → List String
   | _, [] => []
-  | m, e :: rest => entLabel chk now p2 m e :: entLabels chk now p2 (doEntity Policy.code chk now p2 m e) rest
+  | m, e :: rest => entLabel chk now p2 m e :: entLabels chk now p2 (doEntity chk now p2 m e) rest
 
 def sigLabel (k : SrcKind) (cert : Bool) (s : Sig) : String :=
   if !cert then "sig/no-cert"
@@ -186,7 +187,7 @@ def mdqLabels (env : Env String) (st : Store String) (eid : String) : List Strin
         | .unavailable => ["mdq/fetch-http-error"]
         | .malformed => ["mdq/fetch-malformed"]
         | .doc d =>
-          match parseDoc Policy.code s.chk env.now env.c.p2 s.entities d with
+          match parseDoc s.chk env.now env.c.p2 s.entities d with
           | .error _ => ["mdq/fetch-too-old"]
           | .ok m =>
             docLabels s.chk env.now env.c.p2 (erase s.entities eid) .mdq s.cert d ++
@@ -224,15 +225,20 @@ def queryName : Query String → String × Option String
 
 def stepLabels (c : Consts String) (st : Store String) (s : Step String) (a : Ans String) : List String :=
   match s.op with
-  | .imp specs => ["imp/" ++ ansClass a] ++ impLabels c.p2 s.now specs
+  | .imp specs =>
+    ["imp/" ++ ansClass a] ++ impLabels c.p2 s.now specs ++
+    (if specs.any (fun sp => st.any (fun x => x.key == sp.key)) then ["imp/key-already-registered-replaced-in-place"] else []) ++
+    (if st.isEmpty then [] else ["imp/on-top-of-loaded-store"])
   | .reload specs => ["reload/" ++ (if a == .done true then "ok" else "rolled-back")] ++ impLabels c.p2 s.now specs
   | .q qu =>
     let (n, e) := queryName qu
     let holders := match e with
       | some e => (st.filter (fun x => has x.entities e)).length
       | none => 0
+    let ks := keysOf st
     ["q/" ++ n ++ "/" ++ ansClass a] ++
     (if holders ≥ 2 then ["q/" ++ n ++ "/entity-in-several-sources"] else []) ++
+    (if e.isNone && ks.eraseDups.length < ks.length then ["q/" ++ n ++ "/some-entity-in-several-sources"] else []) ++
     (match e with
      | some e => (match qu with
         | .attrReq _ _ => []
@@ -256,9 +262,8 @@ def handle (line : Json) : Json :=
   let labels := (labelsRun c [] h).eraseDups
   let specImpl := specRun c h implObs
   -- which single departure of the code from the property (if any) explains the observations
-  let withF9 := specRunWith ⟨true, false, false⟩ c h implObs
-  let withF11 := specRunWith ⟨false, true, false⟩ c h implObs
-  let withF18 := specRunWith ⟨false, false, true⟩ c h implObs
+  let withF9 := specRunWith ⟨true, false⟩ c h implObs
+  let withF11 := specRunWith ⟨false, true⟩ c h implObs
   let clean := cleanRun c [] h
   let path :=
     (if h.any (fun s => match s.op with | .reload _ => true | _ => false) then "reload" else "load") ++
@@ -268,8 +273,7 @@ def handle (line : Json) : Json :=
   let why : Json :=
     if specImpl then Json.null
     else Json.mkObj [("first_bad_step", match firstBad (run Policy.ideal c [] h).1 implObs 0 with | some n => toJson n | none => Json.null),
-                     ("holds_if_unsigned_passes", withF9), ("holds_if_mdq_stores_first", withF11),
-                     ("holds_if_sibling_roles_kept", withF18)]
+                     ("holds_if_unsigned_passes", withF9), ("holds_if_mdq_stores_first", withF11)]
   Json.mkObj [("model", Json.mkObj [("obs", jarr (m.map ansToJson))]), ("path", path),
     ("branches", jstrs labels), ("clean", clean),
     ("spec_model", specRun c h m), ("spec_impl", specImpl), ("why", why)]
